@@ -8,6 +8,16 @@ fresh widget; states that carry a preferred column are expanded further (memoise
 state) so that up/down chains are covered.  A seeded random-history check adds long mixed sequences
 without memoisation (catches history dependence such as stale caches).
 
+Two further families widen the scope where seeded changes were missed:
+  * numeric key alphabet: every numeric widget is offered, at every explored state, every character of
+    FOREIGN_KEYS / ASCII_EXTRA_KEYS that is outside its alphabet (non-ASCII decimal digits, characters that
+    are isdigit()/isnumeric() only, letters whose upper()/lower() is an ASCII letter, separator and minus
+    look-alikes, range neighbours of the ASCII digit and letter ranges, characters int()/float() tolerate);
+    the reference refuses such a key by itself (it does not ask the widget), so an accepted one fails model,
+    return-value and numeric-alphabet;
+  * preferred-column histories (see RAGGED_TEXTS): ragged texts, every key at every state that carries a
+    preferred column, an up/down probe after every key that must forget it.
+
 Clauses (one Check each): model (text+offset = reference), offset-valid, cursor-cell (render/cursor
 and the rendered rows = reference grid), click, signals, return-value, no-exception, numeric-alphabet,
 numeric-alphabet-initial, random-histories.
@@ -39,7 +49,7 @@ RULES = {
     "signals": "each modification emits exactly change(new text) while the old text is still held, then postchange(old text) once the new text is held; no signal without a modification",
     "return-value": "keys with an effect return None; keys the editor does not use are returned unchanged and leave text, cursor and signals untouched (keys without effect at a boundary may return either)",
     "no-exception": "no event, render or cursor query raises",
-    "numeric-alphabet": "IntEdit/IntegerEdit/FloatEdit never hold a character outside their alphabet after any key/click sequence, apart from one leading '-' when allow_negative",
+    "numeric-alphabet": "IntEdit/IntegerEdit/FloatEdit never hold a character outside their alphabet after any key/click sequence, apart from one leading '-' when allow_negative; the keys include characters outside every alphabet that Python's str methods / int() / float() treat as digits, numbers or the same letter",
     "numeric-alphabet-initial": "the same alphabet invariant directly after construction with a legitimately typed default",
     "random-histories": "seeded random event sequences (no memoisation): every clause above at every step",
 }
@@ -994,7 +1004,8 @@ def run(tier="quick", seed=0):
     t0 = time.time()
     procs = min(16, os.cpu_count() or 1)
     tasks = tasks_for(tier)
-    tasks.sort(key=lambda t: -(len(t["inits"]) if t["cfg"]["kind"] == "edit" else 10**6))
+    # longest first (rough cost: numeric tasks, then the preferred-column tasks -- about 3x / 7x an ordinary initial state)
+    tasks.sort(key=lambda t: -((len(t["inits"]) * ((7 if t["depth"] >= 3 else 3) if t.get("family") == "pref" else 1)) if t["cfg"]["kind"] == "edit" else 10**6))
     core_texts, other_texts = text_sets(tier)
     total = Tally()
     for t in _pool_map(explore, tasks, procs):
@@ -1005,7 +1016,9 @@ def run(tier="quick", seed=0):
         f"Edit: {ncfg} configurations (wrap space/any/clip x align x width 1..{4 if tier == 'quick' else 6}; captions, multiline/allow_tab/mask, str and UTF-8 bytes) x "
         f"{len(core_texts)} texts for the {sum(1 for c in configs(tier) if is_core(c))} plain configurations ({'all of length <= 2 over {a, space, newline, 中, U+0301}, all <= 3 over {a, space, 中}, 6 longer ones' if tier == 'quick' else 'all <= 3 over {a, space, newline, 中, U+0301}, all <= 4 over {a, space, 中}, 11 longer ones (up to 9 characters)'}) and {len(other_texts)} texts ({'all <= 2, 6 longer' if tier == 'quick' else 'all <= 2, all <= 3 without U+0301, 11 longer'}) for the others "
         f"x every cursor{' (quick tier: every second (text, cursor) pair, the phase alternating with the configuration)' if tier == 'quick' else ''} x every event ({len(PRINT_KEYS + NAV_KEYS + UNUSED_KEYS)} keys, a click on every cell, a button-3 press), "
-        f"preferred-column states expanded to event sequences of length {2 if tier == 'quick' else 4}; numeric: {nnum} configurations, all key sequences up to length {4 if tier == 'quick' else 5} over {len(NUM_KEYS)} keys from the empty widget (memoised on state)"
+        f"preferred-column states expanded to event sequences of length {2 if tier == 'quick' else 4}; "
+        f"preferred-column histories: {len(pref_configs(tier))} configurations (width 3..5, every wrap x align at width {'4' if tier == 'quick' else '3, 4, 5'}, caption, UTF-8 bytes, mask) x {len(pref_texts(tier))} ragged texts (2..5 rows of unequal length incl. empty rows, wide characters, wrapped and clipped rows) x every cursor x every event, then all of {len(PREF_FULL_KEYS)} keys at every state that carries a preferred column and an up/down probe after every key that must forget it, event sequences up to length {'3 (4 for one configuration per wrap mode)' if tier == 'quick' else 5}; "
+        f"numeric: {nnum} configurations (IntEdit, IntegerEdit base 2/10/16/36{'' if tier == 'quick' else '/20/30'}, FloatEdit), all key sequences up to length {4 if tier == 'quick' else 5} from the empty widget (memoised on state) over {len(NUM_KEYS)} common keys plus every one of {len(FOREIGN_KEYS)} non-ASCII characters (Nd/No/Nl/Lo digits and numbers, letters whose upper()/lower() is an ASCII letter, separator and minus look-alikes, Cf/Mn) and {len(ASCII_EXTRA_KEYS)} ASCII characters (digits of other bases, range neighbours of 0-9/A-Z/a-z, characters int()/float() tolerate) that is outside the configuration's alphabet, and the two-digit key name '12'"
     )
     checks = []
     for clause in CLAUSES:
